@@ -269,37 +269,61 @@ Section Objective.
     - destruct (qltb (e_f e) value); split; intro H; try discriminate; contradiction.
   Qed.
 
-  (* ... and that needs a NEGATIVE initial step length: a strong-Wolfe point found in iteration k > 1 lies strictly
-     below the first trial, which passed the sufficient-decrease test *)
+  (* ... and that needs a NEGATIVE initial step length.  Along an ascent direction (gtd > 0) the strong-Wolfe test
+     |gtd_new| <= -c2 gtd never holds; otherwise a strong-Wolfe point found in iteration k > 1 lies strictly below the
+     first trial, which passed the sufficient-decrease test with t0 >= 0 *)
+  Lemma wc_c2_pos : 0 < wc_c2. Proof. reflexivity. Qed.
+
+  Lemma wc_bracketing_no_single_ascent : forall fuel k ex point d value gtd prev new,
+    0 < gtd ->
+    match wc_bracketing f grad fuel k ex point d value gtd prev new with WB_single _ _ => False | _ => True end.
+  Proof.
+    induction fuel as [|fuel IH]; intros k ex point d value gtd prev new Hg; cbn [wc_bracketing]; [exact I|].
+    destruct (_ || _); [exact I|].
+    destruct (Qle_bool (Qabs _) _) eqn:B.
+    - apply Qle_bool_iff in B. rewrite qmul_eq in B. pose proof (Qabs_nonneg (dot (e_g new) d)). pose proof wc_c2_pos.
+      assert (0 < wc_c2 * gtd) by (apply Qmult_lt_0_compat; assumption).
+      assert (- wc_c2 * gtd == - (wc_c2 * gtd)) as E by ring. rewrite E in B. lra.
+    - destruct (Qle_bool 0 _); [exact I|]. apply IH. exact Hg.
+  Qed.
+
   Lemma wc_bracketing_single_below : forall fuel k ex point d value gtd prev new,
-    (1 <= k)%nat ->
-    ((1 < k)%nat /\ e_f prev < value \/ k = 1%nat /\ (gtd <= 0 -> 0 <= e_t new)) ->
+    gtd <= 0 -> e_f prev <= value -> (1 <= k)%nat -> ((1 < k)%nat \/ 0 <= e_t new) ->
     match wc_bracketing f grad fuel k ex point d value gtd prev new with
     | WB_single e0 iter => (1 < iter)%nat -> e_f e0 < value
     | _ => True
     end.
   Proof.
-    induction fuel as [|fuel IH]; intros k ex point d value gtd prev new Hk1 Hk; cbn [wc_bracketing]; [exact I|].
+    induction fuel as [|fuel IH]; intros k ex point d value gtd prev new Hg Hp Hk1 Hk; cbn [wc_bracketing]; [exact I|].
     destruct (_ || _) eqn:C; [exact I|].
     apply orb_false_iff in C. destruct C as [C1 C2].
-    destruct (Qle_bool (Qabs _) _) eqn:B.
-    - intros Hi. destruct Hk as [[Hk Hp] | [Hk _]]; [|lia].
-      apply Nat.ltb_lt in Hk. rewrite Hk in C2. cbn [andb] in C2.
+    assert ((1 < k)%nat -> e_f new < e_f prev) as Hlt.
+    { intro K. apply Nat.ltb_lt in K. rewrite K in C2. cbn [andb] in C2.
       destruct (Qle_bool (e_f prev) (e_f new)) eqn:E; [discriminate|].
-      assert (~ e_f prev <= e_f new) by (intro X; apply Qle_bool_iff in X; congruence). lra.
-    - destruct (Qle_bool 0 _); [exact I|].
-      apply IH; [lia|]. left. split; [lia|].
-      destruct Hk as [[Hk Hp] | [Hk Ht]].
-      + apply Nat.ltb_lt in Hk. rewrite Hk in C2. cbn [andb] in C2.
-        destruct (Qle_bool (e_f prev) (e_f new)) eqn:E; [discriminate|].
-        assert (~ e_f prev <= e_f new) by (intro X; apply Qle_bool_iff in X; congruence). lra.
-      + (* k = 1: the first trial passed the Armijo test and is not a strong-Wolfe point *)
-        destruct (Qlt_le_dec 0 gtd) as [Gp | Gn].
-        * (* ascent: the Wolfe test |gtd_new| <= -c2 gtd can never hold, so no single is ever produced; but we still
-             need a bound: use the Armijo test only when gtd <= 0; for gtd > 0 later singles are impossible *)
-          exfalso_or_bound.
-        * pose proof (armijo_le value (e_t new) gtd (e_f new) (Ht Gn) Gn C1). admit_bound.
+      assert (~ e_f prev <= e_f new) by (intro X; apply Qle_bool_iff in X; congruence). lra. }
+    assert (e_f new <= value) as Hn.
+    { destruct Hk as [K | K]; [specialize (Hlt K); lra | eapply armijo_le; eauto]. }
+    destruct (Qle_bool (Qabs _) _).
+    - intro K. specialize (Hlt K). lra.
+    - destruct (Qle_bool 0 _); [exact I|]. apply IH; auto; try lia.
   Qed.
+
+  (* the repaired wolfecubic is DEFINED for every oracle, every objective, every incoming value / gradient (consistent
+     or not) as soon as the initial step length is not negative *)
+  Theorem wolfecubic_defined : forall o point d value g t0,
+    0 <= t0 -> wolfecubic f grad o point d value g t0 <> None.
+  Proof.
+    intros o point d value g t0 Ht H. apply wolfecubic_undefined_iff in H.
+    destruct (Qlt_le_dec 0 (dot g d)) as [Gp | Gn].
+    - pose proof (wc_bracketing_no_single_ascent wc_max_iter 1%nat (o_wexp o) point d value (dot g d) (0, value, g)
+                    (eval3 point d t0) Gp) as N.
+      destruct (wc_bracketing _ _ _ _ _ _ _ _ _ _ _); auto.
+    - pose proof (wc_bracketing_single_below wc_max_iter 1%nat (o_wexp o) point d value (dot g d) (0, value, g)
+                    (eval3 point d t0) Gn (Qle_refl _) (le_n 1) (or_intror Ht)) as N.
+      destruct (wc_bracketing _ _ _ _ _ _ _ _ _ _ _) as [e0 e1 iter | e0 iter | e]; auto.
+      destruct H as [A B]. unfold wc_max_iter in A. assert (e_f e0 < value) by (apply N; lia). cbn [e_f fst snd] in *. lra.
+  Qed.
+
   (* ---------------- dlinmin ---------------- *)
   Lemma dl_brent_spec : forall point d us x fx,
     fx = f (ray point d x) ->
@@ -359,6 +383,16 @@ Section Objective.
     - pose proof (backtracking_monotone f grad point d value g t0 Ht Hd) as B.
       destruct (backtracking _ _ _ _ _ _ _) as [[p v] g0]. inversion H; subst. exact B.
     - inversion H; subst. lra.
+  Qed.
+
+  (* every call with a non-negative initial step length is defined (all types, every oracle) *)
+  Theorem linesearch_defined : forall ty o point d value g t0,
+    0 <= t0 -> linesearch f grad ty o point d value g t0 <> None.
+  Proof.
+    intros ty o point d value g t0 Ht.
+    destruct ty as [|[|[|ty]]]; cbn [linesearch]; try discriminate.
+    - destruct (dlinmin f o point d). discriminate.
+    - apply wolfecubic_defined. exact Ht.
   Qed.
 
   (* the new point is on the search line (all types) *)
@@ -468,6 +502,27 @@ Section Lift.
     apply H; [lia|]. cbn [ls_run_o]. unfold ls_step_o. rewrite L. fold (mid_of s p' v' g'). rewrite C. exact R.
   Qed.
 
+  (* init sets a non-negative step length, step sets 1: every run of the optimizer is defined, whatever the oracles *)
+  Lemma run_o_total_from : forall orcs n k s, 0 <= step_len s -> run_o orcs k n s <> None.
+  Proof.
+    intros orcs. induction n as [|n IH]; intros k s Ht; cbn [ls_run_o]; [discriminate|].
+    destruct (step_o (orcs k) s) as [s1|] eqn:E.
+    - apply IH. destruct (step_o_inv _ _ _ E) as (p' & v' & g' & _ & _ & _ & _ & T & _). rewrite T. lra.
+    - exfalso. unfold ls_step_o in E.
+      pose proof (linesearch_defined f grad (ls_type s) (orcs k) (pt s) (sdir s) (val s) (der s) (step_len s) Ht) as D.
+      destruct (linesearch _ _ _ _ _ _ _ _ _) as [[[p' v'] g']|]; [|congruence].
+      destruct (compute_dir _); discriminate.
+  Qed.
+
+  Theorem run_o_total : forall constrained lstype x0 orcs n,
+    exists s, run_o orcs 0%nat n (init_o constrained lstype x0) = Some s.
+  Proof.
+    intros c ty x0 orcs n.
+    destruct (run_o orcs 0%nat n (init_o c ty x0)) as [s|] eqn:E; [eauto|].
+    exfalso. revert E. apply run_o_total_from. unfold ls_init_o, ls_init. cbn [step_len].
+    apply halve_feasible_nonneg_pre.
+  Qed.
+
   Lemma step_o_monotone : forall o s s',
     consistent f grad M s -> 0 <= step_len s -> dot (der s) (sdir s) <= 0 ->
     step_o o s = Some s' -> val s' <= val s /\ f (pt s') <= f (pt s).
@@ -506,12 +561,24 @@ End Lift.
 
 (* ---------------- examples ---------------- *)
 (* wolfecubic on a linear objective f(x) = -x along d = 1: every expansion t *= 10 passes the three tests of the
-   bracketing phase, after maxIter = 25 of them the loop ends with bracket / bracketf / bracketg unassigned *)
+   bracketing phase.  Before the repair 1272c59f the loop ended after maxIter = 25 of them with bracket / bracketf /
+   bracketg unassigned (old_wolfecubic = None); now the last tested step length 10^24 is taken. *)
 Definition lin_f (x : vec) : Q := - hd 0 x.
 Definition lin_grad (_ : vec) : vec := [-1].
 Definition id_oracle : ls_oracle := {| o_wexp := fun _ q => q; o_wzoom := fun _ => 1; o_dx0 := 1; o_dus := [] |}.
 
-Example wolfecubic_linear_undefined : wolfecubic lin_f lin_grad id_oracle [0] [1] 0 [-1] 1 = None.
+Example wolfecubic_linear_regression :
+  old_wolfecubic lin_f lin_grad id_oracle [0] [1] 0 [-1] 1 = None /\
+  wolfecubic lin_f lin_grad id_oracle [0] [1] 0 [-1] 1
+    = Some ([1000000000000000000000000], - (1000000000000000000000000), [-1]).
+Proof. split; vm_compute; reflexivity. Qed.
+
+(* the path that is still undefined needs a negative initial step length (no caller in the library passes one):
+   f = 1 / (10^5 |x|) off 0, reported slope -1 except 0 at x = -10^24, t0 = -1: 24 expansions, strong Wolfe point in
+   iteration 25 with a value above the old one: `value > bracketf[0]` fails and bracketf[1] is read unassigned *)
+Definition neg_f (x : vec) : Q := let a := hd 0 x in if Qeq_bool a 0 then 0 else Qred (/ (Qabs a * 100000)).
+Definition neg_grad (x : vec) : vec := if Qeq_bool (hd 0 x) (- (1000000000000000000000000)) then [0] else [-1].
+Example wolfecubic_negative_step_undefined : wolfecubic neg_f neg_grad id_oracle [0] [1] 0 [-1] (-1) = None.
 Proof. vm_compute. reflexivity. Qed.
 
 (* the oracle hypotheses of the ray theorem are satisfiable *)
